@@ -230,9 +230,39 @@ func actxStrip(e ast.Expr) ast.Expr {
 	}
 }
 
-// classifyWrite recognises the push / pop forms of a stack field.
+// stepAssign: `x.F += 1` / `x.F -= 1` (compound assignment by the constant one).
+func (m *actxPkg) stepAssign(x *ast.AssignStmt, i int) (actxWriteKind, bool) {
+	if (x.Tok != token.ADD_ASSIGN && x.Tok != token.SUB_ASSIGN) || len(x.Lhs) != 1 || len(x.Rhs) != 1 || i != 0 {
+		return actxWSet, false
+	}
+	if tv := m.info.Types[x.Rhs[0]]; tv.Value == nil || tv.Value.ExactString() != "1" {
+		return actxWSet, false
+	}
+	if x.Tok == token.ADD_ASSIGN {
+		return actxWInc, true
+	}
+	return actxWDec, true
+}
+
+// classifyWrite recognises the push / pop forms of a stack field and the
+// spelled-out counter steps `x.F = x.F + 1` / `x.F = x.F - 1`.
 func (m *actxPkg) classifyWrite(f *types.Var, rhs ast.Expr) actxWriteKind {
 	rhs = ast.Unparen(rhs)
+	if be, ok := rhs.(*ast.BinaryExpr); ok && (be.Op == token.ADD || be.Op == token.SUB) {
+		one := func(e ast.Expr) bool {
+			tv := m.info.Types[e]
+			return tv.Value != nil && tv.Value.ExactString() == "1"
+		}
+		if g, _ := m.fieldOf(be.X); g == f && one(be.Y) {
+			if be.Op == token.ADD {
+				return actxWInc
+			}
+			return actxWDec
+		}
+		if g, _ := m.fieldOf(be.Y); g == f && one(be.X) && be.Op == token.ADD {
+			return actxWInc
+		}
+	}
 	if call, ok := rhs.(*ast.CallExpr); ok {
 		if id, ok := call.Fun.(*ast.Ident); ok && id.Name == "append" && len(call.Args) >= 1 {
 			if g, _ := m.fieldOf(call.Args[0]); g == f {
@@ -267,6 +297,11 @@ func (m *actxPkg) scanFunc(fn *types.Func) {
 				}
 				lhs[actxStrip(l)] = true
 				if !ptr {
+					continue
+				}
+				if k, ok := m.stepAssign(x, i); ok {
+					// x.F += 1 / x.F -= 1: the counter forms of ++ / --
+					m.writes[fn] = append(m.writes[fn], actxWrite{field: f, kind: k, pos: x.Pos()})
 					continue
 				}
 				if x.Tok != token.ASSIGN || len(x.Rhs) != len(x.Lhs) {
